@@ -50,15 +50,19 @@ func eachString(symbols []string, maxLen int, f func(idx int64, s string, syms [
 type placement struct {
 	name      string
 	preceding []int // lengths of the files added before it
+	// readerFirst: the reader is created BEFORE the file is added to the set (the order
+	// examples/json/json/parser_test.go uses), so anything it copied from the file at construction is stale
+	readerFirst bool
 }
 
 var placements = []placement{
-	{"alone", nil},
-	{"after an empty file", []int{0}},
-	{"after a 3-byte file", []int{3}},
-	{"after two empty files", []int{0, 0}},
-	{"after files of 2 and 5 bytes", []int{2, 5}},
-	{"after a 998-byte file", []int{998}},
+	{"alone", nil, false},
+	{"after an empty file", []int{0}, false},
+	{"after a 3-byte file", []int{3}, false},
+	{"after two empty files", []int{0, 0}, false},
+	{"after files of 2 and 5 bytes", []int{2, 5}, false},
+	{"after a 998-byte file", []int{998}, false},
+	{"after a 3-byte file, reader created before the file was added", []int{3}, true},
 }
 
 // place builds a file set with the preceding files and the file under test; it
@@ -72,6 +76,11 @@ func place(pl placement, name string, content []byte) (*parsley.FileSet, *text.F
 		base += l + 1
 	}
 	f := text.NewFile(name, content)
+	if pl.readerFirst {
+		r := text.NewReader(f)
+		fs.AddFile(f)
+		return fs, f, r, base
+	}
 	fs.AddFile(f)
 	return fs, f, text.NewReader(f), base
 }
